@@ -1224,6 +1224,7 @@ _FRAME_METHODS = {
     "reset_index": _m_reset_index,
     "copy": _m_copy,
     "shape": _m_shape,
+    "empty": lambda self, interp: self.length().v == 0,  # DataFrame.empty: no rows (the frames here always have columns)
     "columns": _m_columns,
     "drop": _m_drop,
     "dropna": _m_dropna,
